@@ -11,7 +11,7 @@ CONSTANTS
   VNames = {"a"}
   TNames = {"int64"}
   DefVals = {1}
-  SetVals = {2, 5}
+  SetVals = {2, 90}
   TypeVals = {1}
   PathNames = {"a"}
   Emit = TRUE
